@@ -83,3 +83,30 @@ package nuget
 
 //@ func (*VersionRange).String
 //@   ensures text: result == arg0.original   [C18]
+
+// ---- range text to constraints (C02): an operator directly before a valid version
+
+//@ func parseSingleConstraint
+//@   ensures one: result1 == nil ==> len(result0) == 1 && result0[0] != nil && result0[0].version != nil
+//@   ensures op>=: strings.HasPrefix(strings.TrimSpace(c), ">=") && result1 == nil ==> result0[0].operator == ">=" && result0[0].version == e.NewVersion(strings.TrimSpace(strings.TrimSpace(c)[2:])).0   [C02]
+//@   ensures accepts>=: strings.HasPrefix(strings.TrimSpace(c), ">=") && e.NewVersion(strings.TrimSpace(strings.TrimSpace(c)[2:])).1 == nil ==> result1 == nil   [C02]
+//@   ensures op<=: strings.HasPrefix(strings.TrimSpace(c), "<=") && result1 == nil ==> result0[0].operator == "<=" && result0[0].version == e.NewVersion(strings.TrimSpace(strings.TrimSpace(c)[2:])).0   [C02]
+//@   ensures accepts<=: strings.HasPrefix(strings.TrimSpace(c), "<=") && e.NewVersion(strings.TrimSpace(strings.TrimSpace(c)[2:])).1 == nil ==> result1 == nil   [C02]
+//@   ensures op!=: strings.HasPrefix(strings.TrimSpace(c), "!=") && result1 == nil ==> result0[0].operator == "!=" && result0[0].version == e.NewVersion(strings.TrimSpace(strings.TrimSpace(c)[2:])).0   [C02]
+//@   ensures accepts!=: strings.HasPrefix(strings.TrimSpace(c), "!=") && e.NewVersion(strings.TrimSpace(strings.TrimSpace(c)[2:])).1 == nil ==> result1 == nil   [C02]
+//@   ensures op>: strings.HasPrefix(strings.TrimSpace(c), ">") && !strings.HasPrefix(strings.TrimSpace(c), ">=") && result1 == nil ==> result0[0].operator == ">" && result0[0].version == e.NewVersion(strings.TrimSpace(strings.TrimSpace(c)[1:])).0   [C02]
+//@   ensures accepts>: strings.HasPrefix(strings.TrimSpace(c), ">") && !strings.HasPrefix(strings.TrimSpace(c), ">=") && e.NewVersion(strings.TrimSpace(strings.TrimSpace(c)[1:])).1 == nil ==> result1 == nil   [C02]
+//@   ensures op<: strings.HasPrefix(strings.TrimSpace(c), "<") && !strings.HasPrefix(strings.TrimSpace(c), "<=") && result1 == nil ==> result0[0].operator == "<" && result0[0].version == e.NewVersion(strings.TrimSpace(strings.TrimSpace(c)[1:])).0   [C02]
+//@   ensures accepts<: strings.HasPrefix(strings.TrimSpace(c), "<") && !strings.HasPrefix(strings.TrimSpace(c), "<=") && e.NewVersion(strings.TrimSpace(strings.TrimSpace(c)[1:])).1 == nil ==> result1 == nil   [C02]
+//@   ensures op=: strings.HasPrefix(strings.TrimSpace(c), "=") && result1 == nil ==> result0[0].operator == "=" && result0[0].version == e.NewVersion(strings.TrimSpace(strings.TrimSpace(c)[1:])).0   [C02]
+//@   ensures accepts=: strings.HasPrefix(strings.TrimSpace(c), "=") && e.NewVersion(strings.TrimSpace(strings.TrimSpace(c)[1:])).1 == nil ==> result1 == nil   [C02]
+
+//@ func parseCommaSeparatedConstraints
+//@   loop 1 invariant (forall j int :: 0 <= j && j <= rangeindex ==> strings.TrimSpace(parts[j]) != "") ==> len(constraints) == rangeindex + 1 && (forall j int :: 0 <= j && j <= rangeindex ==> constraints[j] == parseSingleConstraint(e, strings.TrimSpace(parts[j])).0[0])
+//@   ensures and-list: (forall j int :: 0 <= j && j < len(strings.Split(rangeStr, ",")) ==> strings.TrimSpace(strings.Split(rangeStr, ",")[j]) != "") && result1 == nil ==> len(result0) == len(strings.Split(rangeStr, ",")) && (forall j int :: 0 <= j && j < len(result0) ==> result0[j] == parseSingleConstraint(e, strings.TrimSpace(strings.Split(rangeStr, ",")[j])).0[0])   [C02]
+
+// lifting to whole ranges: an AND-range of comparator constraints treats versions that compare equal alike (the two
+// quantified sides are what Contains returns for v1 and v2, by its `and` clause)
+//@ lemma c20-range-equal [C20] uses c20-equal: forall nr *VersionRange, v1, v2 *Version :: nr != nil && v1 != nil && v2 != nil && wfRange(nr) && (forall i int :: 0 <= i && i < len(nr.constraints) ==> nr.constraints[i].version != nil && (nr.constraints[i].operator == "=" || nr.constraints[i].operator == "!=" || nr.constraints[i].operator == "<" || nr.constraints[i].operator == "<=" || nr.constraints[i].operator == ">" || nr.constraints[i].operator == ">=")) && v1.Compare(v2) == 0 ==> ((forall i int :: 0 <= i && i < len(nr.constraints) ==> nr.constraints[i].matches(v1)) == (forall i int :: 0 <= i && i < len(nr.constraints) ==> nr.constraints[i].matches(v2)))
+// ... and the set a range without != accepts is convex in the order
+//@ lemma c20-range-convex [C20] uses c20-convex: forall nr *VersionRange, a, b, d *Version :: nr != nil && a != nil && b != nil && d != nil && wfRange(nr) && (forall i int :: 0 <= i && i < len(nr.constraints) ==> nr.constraints[i].version != nil && (nr.constraints[i].operator == "=" || nr.constraints[i].operator == "!=" || nr.constraints[i].operator == "<" || nr.constraints[i].operator == "<=" || nr.constraints[i].operator == ">" || nr.constraints[i].operator == ">=") && nr.constraints[i].operator != "!=") && a.Compare(b) <= 0 && b.Compare(d) <= 0 && (forall i int :: 0 <= i && i < len(nr.constraints) ==> nr.constraints[i].matches(a)) && (forall i int :: 0 <= i && i < len(nr.constraints) ==> nr.constraints[i].matches(d)) ==> (forall i int :: 0 <= i && i < len(nr.constraints) ==> nr.constraints[i].matches(b))
